@@ -623,6 +623,8 @@ class Harness:
                 v = 10**400  # a finite number of seconds that no float can hold
             elif v == "-hugeint":
                 v = -(10**400)
+            elif v == "none":
+                v = None  # a strategy with a branch that forgets its return statement
             rec.trace.append(
                 ("strategy", name, attempt, klassname, prev, remaining, cause, ra, v, cls_ok, h.now())
             )
